@@ -4,6 +4,7 @@ import (
 	"encoding/json"
 	"fmt"
 	"os"
+	"os/exec"
 	"path/filepath"
 	"sort"
 	"strings"
@@ -192,6 +193,9 @@ func (r *Report) Finish() int {
 	for k, v := range r.Extra {
 		cov[k] = v
 	}
+	if cv := coverageOfAnchors(r.Prop); cv != nil {
+		cov["anchored_function_coverage_percent"] = cv
+	}
 	if len(r.Notes) > 0 {
 		cov["notes"] = r.Notes
 	}
@@ -241,3 +245,55 @@ func (r *Report) Finish() int {
 }
 
 func sortedCounters(m map[string]int) map[string]int { return m }
+
+// coverageOfAnchors reports, for the functions in the property's anchored
+// files, the statement coverage reached by this run (thorough tier only;
+// evidence of reach, never a verdict).
+func coverageOfAnchors(prop string) map[string]float64 {
+	dir := os.Getenv("VERIF_COVDIR")
+	if dir == "" {
+		return nil
+	}
+	if ents, err := os.ReadDir(dir); err != nil || len(ents) == 0 {
+		return nil
+	}
+	pb, err := os.ReadFile(filepath.Join(verifRoot, "properties.jsonl"))
+	if err != nil {
+		return nil
+	}
+	var files []string
+	for _, l := range strings.Split(string(pb), "\n") {
+		var p struct {
+			ID      string `json:"id"`
+			Anchors struct {
+				Files []string `json:"files"`
+			} `json:"anchors"`
+		}
+		if json.Unmarshal([]byte(l), &p) == nil && p.ID == prop {
+			files = p.Anchors.Files
+		}
+	}
+	cmd := exec.Command("go", "tool", "covdata", "func", "-i="+dir)
+	out, err := cmd.Output()
+	if err != nil {
+		return nil
+	}
+	res := map[string]float64{}
+	for _, l := range strings.Split(string(out), "\n") {
+		f := strings.Fields(l)
+		if len(f) != 3 || !strings.HasSuffix(f[2], "%") {
+			continue
+		}
+		for _, af := range files {
+			if strings.Contains(f[0], "/"+af+":") {
+				var pct float64
+				fmt.Sscanf(strings.TrimSuffix(f[2], "%"), "%f", &pct)
+				res[af+":"+f[1]] = pct
+			}
+		}
+	}
+	if len(res) == 0 {
+		return nil
+	}
+	return res
+}
